@@ -42,10 +42,27 @@ package check
 
 // bcheckExpr: the per-expression range computation (bounds.go). Its soundness is
 // the core of C01 and is NOT proved here: assumed.
+//@ func (*checker).bcheckExpr1
+//@   prop C01 C02
+//@   trusted the dispatch over expression forms is assumed sound as a whole (its unary, binary and index/slice cases are proved separately: bcheckExprUnaryOp, bcheckExprBinaryOp1, bcheckExprOther; conversions, associative operators, calls and fields are not): on success the returned range is finite and, if the remembered facts are true, contains the expression's value
+//@   requires q != nil && n != nil
+//@   ensures implies(result1 == nil, result0[0] != nil && result0[1] != nil && bigval(result0[0]) <= bigval(result0[1]) && implies(old(factsHold(q)), inB(result0, wval(n)) && inR(result0, wval(n))))
+//@   ensures unchanged(q.facts) && unchanged(mem(q.facts))
+//@   modifies *q
+
+//@ func bcheckExprConstValue
+//@   prop C01 C02
+//@   requires n != nil
+//@   ensures implies(result1 == nil, cvOf(n) != nil && result0[0] == cvOf(n) && result0[1] == cvOf(n))
+//@   pure
+//@   loop 1 invariant -1 <= rangeindex && rangeindex <= 0x800000000000
+
+// bcheckExpr itself is proved on top of bcheckExpr1: the recursion-depth guard, the
+// cached range, constants, the narrowing by facts (refine) and the final test that
+// the range lies within the type's range.
 //@ func (*checker).bcheckExpr
 //@   prop C01 C02
-//@   trusted soundness of the per-expression range computation (bounds.go) is assumed, not proved: on success the returned range is finite and, if the remembered facts are true, contains the expression's value
-//@   requires q != nil && n != nil
+//@   requires q != nil && n != nil && forall(k, 0, len(q.facts), q.facts[k] != nil)
 //@   ensures implies(result1 == nil, result0[0] != nil && result0[1] != nil && bigval(result0[0]) <= bigval(result0[1]) && implies(old(factsHold(q)), inB(result0, wval(n)) && inR(result0, wval(n))))
 //@   ensures unchanged(q.facts) && unchanged(mem(q.facts))
 //@   modifies *q
@@ -140,8 +157,10 @@ package check
 //@   prop C01
 //@   requires n != nil && forall(k, 0, len(z), z[k] != nil)
 //@   ensures[sound] implies(result1 == nil && allHold(z) && inB(nb, wval(n)), inB(result0, wval(n)))
+//@   ensures[nonempty] implies(result1 == nil && nb[0] != nil && nb[1] != nil && bigval(nb[0]) <= bigval(nb[1]), result0[0] != nil && result0[1] != nil && bigval(result0[0]) <= bigval(result0[1]))
 //@   loop 1 invariant -1 <= rangeindex && rangeindex < len(z) && forall(k, 0, len(z), z[k] != nil) && unchanged(mem(z))
 //@   loop 1 invariant nb[0] != nil && nb[1] != nil && implies(allHold(z) && inB(atentry(1, nb), wval(n)), inB(nb, wval(n)))
+//@   loop 1 invariant implies(bigval(atentry(1, nb[0])) <= bigval(atentry(1, nb[1])), bigval(nb[0]) <= bigval(nb[1]))
 //@   loop 1 decreases len(z) - rangeindex
 
 // ---- simplify: rewriting an expression keeps its value ----
@@ -230,7 +249,7 @@ package check
 // Unary operators: +x has x's range, -x the mirrored range, "not" is a boolean.
 //@ func (*checker).bcheckExprUnaryOp
 //@   prop C01
-//@   requires q != nil && n != nil && rhsOf(n) != nil
+//@   requires q != nil && n != nil && rhsOf(n) != nil && forall(k, 0, len(q.facts), q.facts[k] != nil)
 //@   ensures[plus] implies(opOf(n) == t.IDXUnaryPlus && result1 == nil && old(factsHold(q)), inR(result0, wval(rhsOf(n))))
 //@   ensures[minus] implies(opOf(n) == t.IDXUnaryMinus && result1 == nil && old(factsHold(q)), inR(result0, 0 - wval(rhsOf(n))))
 //@   ensures[not] implies(opOf(n) == t.IDXUnaryNot && result1 == nil, result0[0] == zero && result0[1] == one)
@@ -258,3 +277,42 @@ package check
 //@   modifies *q
 //@   loop 1 invariant -1 <= rangeindex && rangeindex < len(q.facts) && unchanged(q.facts) && unchanged(mem(q.facts))
 //@   loop 1 decreases len(q.facts) - rangeindex
+
+// ---- index and slice expressions: the memory-safety obligations themselves ----
+// zeroExpr is built once by the package initialiser as the constant 0 and never assigned again.
+//@ axiom zeroexpr: zeroExpr != nil && wval(zeroExpr) == 0
+
+//@ func makeSliceLength
+//@   prop C01
+//@   trusted builds the expression "x.length()": a new node (its value is whatever the slice's length is; uninterpreted)
+//@   pure
+//@   ensures result != nil
+
+//@ func (*checker).proveRecvNotEqNullptr
+//@   prop C01
+//@   trusted not verified here: framed only (reads the facts)
+//@   requires q != nil
+//@   pure
+
+//@ func (*checker).bcheckTypeExpr
+//@   prop C01
+//@   trusted the range of a type is not verified here: framed only (it calls bcheckExpr on constant length and refinement expressions and caches its result on the type node)
+//@   requires q != nil
+//@   ensures implies(result1 == nil, result0[0] != nil && result0[1] != nil)
+//@   ensures unchanged(q.facts) && unchanged(mem(q.facts))
+//@   modifies *q
+
+// bcheckExprOther, for "x[i]" and "x[i .. j]": if it accepts and the remembered facts
+// are true then 0 <= i < length, respectively 0 <= i <= j <= length, where length is
+// the very expression the function derives from x's type (an array type's length, or
+// "x.length()" for a slice). Calls, fields, named constants and argument lists are
+// outside this contract (scope).
+//@ func (*checker).bcheckExprOther
+//@   prop C01
+//@   requires q != nil && n != nil && forall(k, 0, len(q.facts), q.facts[k] != nil)
+//@   requires[scope] opOf(n) == t.IDOpenBracket || opOf(n) == t.IDDotDot
+//@   requires[wellformed] lhsOf(n) != nil && implies(opOf(n) == t.IDOpenBracket, rhsOf(n) != nil)
+//@   assert@ret#last [index] implies(result1 == nil && old(factsHold(q)) && opOf(n) == t.IDOpenBracket, 0 <= wval(rhsOf(n)) && lengthExpr_1 != nil && wval(rhsOf(n)) < wval(lengthExpr_1))
+//@   assert@ret#last [slice] implies(result1 == nil && old(factsHold(q)) && opOf(n) == t.IDDotDot && (mhsOf(n) != nil || rhsOf(n) != nil), lengthExpr_2 != nil && 0 <= wval(mhs) && wval(mhs) <= wval(rhs_2) && wval(rhs_2) <= wval(lengthExpr_2) && implies(mhsOf(n) != nil, sameobj(mhs, mhsOf(n))) && implies(rhsOf(n) != nil, sameobj(rhs_2, rhsOf(n))))
+//@   ensures unchanged(q.facts) && unchanged(mem(q.facts))
+//@   modifies *q
